@@ -53,6 +53,11 @@ def parent_xml(p):
       <finalize><assign location="fin" expr="_event.data.n"/></finalize></invoke>\n''' % (cid, ' autoforward="true"' if p['af'] else '', cid, child_xml(p, cid))
         # par: every invoke lives in its own region of the parallel state s0 (invocations in several active states)
         inv += ('<state id="r_%s">%s</state>\n' % (cid, one)) if p.get('par') else one
+    if p.get('broken'):
+        # an invocation that cannot be started (no such invoker) next to the healthy ones: they are started once and stopped once all the same
+        bad = '<invoke type="http://example.com/no-such-invoker" id="broken"/>\n'
+        if p.get('par'): bad = '<state id="r_broken">%s</state>\n' % bad
+        inv = (bad + inv) if p['broken'] == 'first' else (inv + bad)
     leave = '<send event="leave" delay="%dms"/>' % p['Dp'] if p['Dp'] is not None else ''
     flash = '<if cond="visits == 1"><raise event="flash"/></if>' if p['flash'] else ''
     again = '<if cond="visits &lt; %d"><send event="again" delay="%dms"/></if>' % (p['revisit'] + 1 + (1 if p['flash'] else 0), p['Da']) if (p['revisit'] or p['flash']) else ''
@@ -98,6 +103,7 @@ def gen_params(rng):
     p['par'] = len(kids) == 2 and rng.random() < 0.5          # one invoking region per child
     p['Db'] = rng.choice([None, None, 1, 10, 30])             # the invoking state is left and re-entered by one transition after Db ms
     p['final_on_leave'] = p['Dp'] is not None and rng.random() < 0.3   # leaving the invoking state ends the parent (top-level final)
+    p['broken'] = rng.choice([None, None, None, 'first', 'last'])
     return p
 
 
